@@ -37,22 +37,26 @@ func combEntry(id oid.ID, l uint32, data []byte) []byte {
 	return append(b, data...)
 }
 
-// zeroLenEntry: does the file (walked as a combined file, as the writer lays it
-// out) reach an entry for id with length 0?
-func zeroLenEntry(file []byte, id oid.ID) bool {
-	off := 0
-	for len(file)-off >= combPrefixLen && file[off] == 0x7f && file[off+1] == 0 {
+// targetEntry walks the file as a combined file (the way the readers do: skip
+// `length` bytes after every foreign entry) and returns the claimed length of
+// the first entry for id.
+func targetEntry(file []byte, id oid.ID) (found bool, l uint32) {
+	off := uint64(0)
+	for uint64(len(file)) >= off+combPrefixLen && file[off] == 0x7f && file[off+1] == 0 {
 		l := binary.BigEndian.Uint32(file[off+2+oid.Size:])
 		if bytes.Equal(file[off+2:off+2+oid.Size], id[:]) {
-			return l == 0
+			return true, l
 		}
-		if uint64(off)+combPrefixLen+uint64(l) > uint64(len(file)) {
-			return false
-		}
-		off += combPrefixLen + int(l)
+		off += combPrefixLen + uint64(l)
 	}
-	return false
+	return false, 0
 }
+
+// maxClaimedLen: the full readers (Get/GetBytes) allocate the claimed entry
+// length before reading (up to 4 GiB for a damaged length field). That is
+// outside C41 (and would exhaust the shared machine), so full reads are skipped
+// for such files; the header-only readers are still exercised.
+const maxClaimedLen = 8 << 20
 
 // TestC41FSTreeCorrupt: stored files with damaged bytes (combined-file
 // prefixes, lengths, zstd frames, object bytes, truncation). The header-only
@@ -108,7 +112,7 @@ func TestC41FSTreeCorrupt(t *testing.T) {
 			l := uint32(len(stored))
 			switch rapid.IntRange(0, 7).Draw(t, "lenLie") {
 			case 0:
-				l = rapid.SampledFrom([]uint32{0, 1, l - 1, l + 1, 1 << 31, 1<<32 - 1, 20480, 20479}).Draw(t, "badLen")
+				l = rapid.SampledFrom([]uint32{0, 1, l - 1, l + 1, 1 << 20, 1 << 31, 1<<32 - 1, 20480, 20479}).Draw(t, "badLen")
 				labels = append(labels, "length-lie")
 			}
 			file = append(file, combEntry(id, l, stored)...)
@@ -126,7 +130,12 @@ func TestC41FSTreeCorrupt(t *testing.T) {
 		if len(file) == 0 {
 			file = []byte{0}
 		}
-		zl := zeroLenEntry(file, id)
+		found, claimed := targetEntry(file, id)
+		zl := found && claimed == 0
+		skipFull := found && claimed > maxClaimedLen
+		if skipFull {
+			labels = append(labels, "huge-claimed-length(full-read-skipped)")
+		}
 		if zl && knownOpen {
 			// known finding: exclude the class by construction, keep searching
 			rec.Excluded(1)
@@ -168,8 +177,12 @@ func TestC41FSTreeCorrupt(t *testing.T) {
 
 		var full []byte
 		var fullErr error
-		guard("GetBytes", func() { full, fullErr = fst.GetBytes(addr) })
-		guard("Get", func() { _, _ = fst.Get(addr) })
+		if skipFull {
+			fullErr = fmt.Errorf("skipped")
+		} else {
+			guard("GetBytes", func() { full, fullErr = fst.GetBytes(addr) })
+			guard("Get", func() { _, _ = fst.Get(addr) })
+		}
 		_, canonical := canonicalObject(full)
 		if fullErr == nil {
 			labels = append(labels, "full-ok")
